@@ -314,6 +314,9 @@ func realMode(tier string, seed int64, shard, nshard int, r *res.Result) {
 	}
 	var hist []string
 	for i := 0; i < iters/nshard; i++ {
+		if viol["deadline:expiry-lost"] >= 3 {
+			break // every further lost expiry costs a 10 s wait; three witnesses are enough
+		}
 		kind := rng.Intn(4)
 		var t time.Time
 		switch kind {
